@@ -276,3 +276,12 @@ def unspecified():
 def strint_part(d):
     """the str / int keyed part of a dict"""
     return {k: v for k, v in d.items() if type(k) in (str, int)}
+
+
+def list_at(d, k):
+    return d[k]
+
+
+def dict_same_except(d0, d1, key):
+    """same entries apart from the one at `key`"""
+    return {k: v for k, v in d0.items() if k != key} == {k: v for k, v in d1.items() if k != key}
